@@ -104,6 +104,9 @@ type EvalBinaryNode struct {
 	rightEvaluator NodeEvaluator
 	rightType      ast.ValueType
 
+	// Operand types the current evaluationFn was looked up for.
+	fnLeftType, fnRightType ast.ValueType
+
 	// Constant return type
 	// If InvalidType then this node is dynamic.
 	constReturnType ast.ValueType
@@ -324,6 +327,14 @@ func (e *EvalBinaryNode) eval(scope *Scope, executionState ExecutionState) (resu
 				e.rightType = typeGuardErr.ActualType
 			}
 
+			if e.leftType == e.fnLeftType && e.rightType == e.fnRightType {
+				// The operand reports the type the failing function was selected
+				// for (e.g. a unary operator applied to an operand it is not
+				// defined for): trying again would select the same function and
+				// recurse forever.
+				return boolFalseResultContainer, err
+			}
+
 			// redefine the evaluation fn
 			e.evaluationFn = e.lookupEvaluationFn()
 			if e.evaluationFn == nil {
@@ -421,6 +432,7 @@ func (e *EvalBinaryNode) lookupEvaluationFn() evaluationFn {
 	if info == nil {
 		return nil
 	}
+	e.fnLeftType, e.fnRightType = e.leftType, e.rightType
 	return info.f
 }
 
